@@ -239,6 +239,8 @@ def jobs(tier):
                              init=words_init(256, 4, lambda i: 0x1000193 * (i + 1))))
     B(lambda: conv_sram_inst("Down 32->8 / burst SRAM 256B (linear bursts)", 32, 8, 10, 256, mode="B", burst=True,
                              init=words_init(256, 1, lambda i: 7 * i + 3)))
+    B(lambda: conv_sram_inst("Up 32->64 / burst SRAM 1KiB (linear bursts)", 32, 64, 10, 128, mode="B", burst=True,
+                             init=words_init(128, 8, lambda i: 0x0101010101010101 * (i + 1))))
     B(lambda: conv_sram_inst("Up 32->128 / SRAM 1KiB", 32, 128, 10, 64, mode="B",
                              init=words_init(64, 16, lambda i: (i + 1) * 0x0F1E2D3C4B5A69788796A5B4C3D2E1F0 + i)))
     B(lambda: remap_inst("Remap word dw32 3 regions (ref slave)", 32, 30, 0x0, 0x20000000,
@@ -599,8 +601,8 @@ def probe_wb2csr_partial_sel():
 
 
 def probe_upconverter_burst():
-    """UpConverter forwards cti/bte unchanged: a burst-capable wide slave advances its address counter on every
-    narrow beat."""
+    """Fixed (82f0bdf): UpConverter used to forward cti/bte unchanged, so a burst-capable wide slave advanced its
+    address counter on every narrow beat.  Must pass."""
     init = [0x1111111100000000 * 0 + (0x0101010101010101 * (a + 1)) for a in range(16)]
     top = L.build_conv_sram(32, 64, 5, 16, burst=True, init=init)
     nl = L.FastNetlist(top)
